@@ -375,9 +375,10 @@ func (m *c14Model) apply(s c14Step) string {
 			return ""
 		}
 		x := &m.topo.Nodes[s.A%len(m.topo.Nodes)]
-		fl := []string{"fail", "handshake", "noaddr"}[s.B%3]
-		x.Flags = []string{fl}
-		return fmt.Sprintf("node %d is flagged %s", x.Node, fl)
+		// nofailover (cluster-replica-no-failover) says nothing about the node's health
+		fls := [][]string{{"fail"}, {"handshake"}, {"noaddr"}, {"nofailover"}, {"fail", "nofailover"}, {"nofailover", "fail"}, {"nofailover"}}[s.B%7]
+		x.Flags = fls
+		return fmt.Sprintf("node %d is flagged %s", x.Node, strings.Join(fls, ","))
 	case 9:
 		for i := range m.topo.Nodes {
 			m.topo.Nodes[i].Flags = nil
